@@ -65,8 +65,7 @@ Section Oracles.
       if negb (dsize =? 0) && (dsize <=? pos - doff) then Ok (rev acc) else
       match read_uv (drop pos all) with
       | VEof => Ok (rev acc)
-      | VUnexpectedEof => Err EUnexpectedEof
-      | VOverflow | VNotMinimal => Err EOther
+      | VUnexpectedEof | VOverflow | VNotMinimal => Err EOther
       | VOk slen _ n =>
         if slen =? 0 then (if x_zeof o then Ok (rev acc) else Err EOther)
         else
@@ -112,20 +111,24 @@ Section Oracles.
     end.
 
   (* ---- WrapV1(src io.ReadSeeker, dst io.Writer) ---------------------------------------- *)
-  Definition wrap_bytes (o : xopts) (x : bytes) : res bytes :=
+  (* [srt] stands for what sort.Sort does inside an index bucket (not stable: the order inside a run
+     of equal digests is unspecified; contract in proofs/IndexSort.v).  The executable instance
+     [wrap_bytes] uses the stable insertion sort, and the harness orders such runs by offset. *)
+  Definition wrap_bytes_with (srt : list irec -> list irec) (o : xopts) (x : bytes) : res bytes :=
     match idx_new (x_codec o) with
     | None => Err EOther
     | Some i0 =>
       match load_index o x with
       | Err e => Err e
       | Ok recs =>
-        Ok (pragma ++ enc_v2hdr (new_header (blen x)) ++ x ++ idx_write (idx_load recs i0))
+        Ok (pragma ++ enc_v2hdr (new_header (blen x)) ++ x ++ idx_write (idx_load_with srt recs i0))
       end
     end.
+  Definition wrap_bytes (o : xopts) (x : bytes) : res bytes := wrap_bytes_with sort_by_digest o x.
 
   (* WrapV1File(srcPath, dstPath): os.Open(src), os.Create(dst) (truncates; also when it is the
      source path), WrapV1 *)
-  Definition wrap_file (o : xopts) (s : fs2) : res unit * fs2 :=
+  Definition wrap_file_with (srt : list irec -> list irec) (o : xopts) (s : fs2) : res unit * fs2 :=
     match f_src s with
     | None => (Err EOther, s)
     | Some _ =>
@@ -133,12 +136,13 @@ Section Oracles.
       match f_src s1 with
       | None => (Err EOther, s1)
       | Some x =>
-        match wrap_bytes o x with
+        match wrap_bytes_with srt o x with
         | Err e => (Err e, s1)
         | Ok w => (Ok tt, set_dst s1 w)
         end
       end
     end.
+  Definition wrap_file (o : xopts) (s : fs2) : res unit * fs2 := wrap_file_with sort_by_digest o s.
 
   (* ---- ExtractV1File ------------------------------------------------------------------- *)
   (* io.CopyN(dst, src, n) as a chunked forward copy: source offset base+k, destination offset
@@ -257,6 +261,14 @@ Definition wrap_guard (o : xopts) (roots : list bytes) (bs : list block) : bool 
    trailer (index bytes or nothing) *)
 Definition v2_container (h : v2hdr) (dpad payload tail : bytes) : bytes :=
   pragma ++ enc_v2hdr h ++ dpad ++ payload ++ tail.
+
+(* exactly the CARv2 headers Header.ReadFrom accepts (fields are uint64): data offset at least 51
+   and, like data size and index offset, non-negative as int64; data size not zero.  Nothing else
+   is looked at: characteristics, an index offset inside or before the payload or past the end of
+   the file, a window larger than the file are all accepted here. *)
+Definition v2hdr_accepted (h : v2hdr) : bool :=
+  (51 <=? h_doff h) && (h_doff h <? two63) && (0 <? h_dsize h) && (h_dsize h <? two63) &&
+  (h_ioff h <? two63).
 
 (* what extraction must leave at the destination *)
 Definition payload_window (h : v2hdr) (a : bytes) : bytes := take (h_dsize h) (drop (h_doff h) a).
